@@ -146,4 +146,9 @@ def run(tier: str) -> Run:
         all_outs = run_kernel(repo, kfi, specs_for(kfi))
         bad = [(o.exc_type, o.where) for o in all_outs if o.kind == 'raise' and o.exc_type not in allowed.get(name, set())]
         r6.check(not bad and any(o.kind == 'return' for o in all_outs), name, loc(kfi), {'refusals': bad[:3]}, key=f'total:{name}')
+    # the kernels answer from their arguments alone: no module-level state is written (a cache of the last inverse, a memo of a
+    # constant, ...), so that R or UB updated in place between two calls is seen by the second call
+    r8 = run.rule('R8', 'the Q / hkl kernels keep no state between calls (no module-level write, no memoised result handed out)', 5)
+    from .common import history_free
+    history_free(repo, [repo.func('conversion.tof', n) for n in KERNELS], r8)
     return run
